@@ -68,6 +68,11 @@ type c13Case struct {
 	Targets []int      `json:"targets,omitempty"` // errors.Is is compared for every one of these
 	// family fwdtree (c13_ctxfwd.go): a reader expression drained by a consumer
 	Tree *c13Tree `json:"tree,omitempty"`
+	// family obsnode (c13_obs.go): somebody reads the error on its way out
+	Via     []string `json:"via,omitempty"`     // per level i < last: how the graph of level i+1 sits in node keyᵢ: graph | lambda | lambda-read | lambda-rewrap | lambda-cb | tool
+	Observe string   `json:"observe,omitempty"` // none | cb (an OnError handler that reads err.Error(), given to the caller's run with WithCallbacks)
+	Hops    []c13Hop `json:"hops,omitempty"`    // oracle side: what happens to the error, innermost first
+	obs     *c13Observer
 }
 
 type c13Obs struct {
@@ -75,6 +80,7 @@ type c13Obs struct {
 	Path      []string `json:"path"`
 	Interrupt bool     `json:"interrupt"`
 	Text      string   `json:"text,omitempty"` // start of the error message (panic families)
+	TextPath  []string `json:"textPath"`       // the node path the TEXT of the error names (`node path: [a, b]`), what a caller can read
 	IsT       []bool   `json:"isT,omitempty"`  // ctxend: errors.Is per target
 	// fwdtree: what the consumer received (sorted), how the reader ended
 	End      string `json:"end,omitempty"` // eof | caller-panic | endless
@@ -289,6 +295,11 @@ func c13RunImpl(c *c13Case) (obs *c13Obs, class string) {
 		if r, err = c13PCompile(ctx, c, newC13Sync()); err != nil {
 			return nil, "compile-error:" + err.Error()
 		}
+	} else if c.Kind == "obsnode" {
+		var err error
+		if r, err = c13ObsCompile(ctx, c); err != nil {
+			return nil, "compile-error:" + err.Error()
+		}
 	} else {
 		g, opts, err := c13Graph(c, 0, func(nodeCtx context.Context) {
 			if ender != nil {
@@ -324,7 +335,7 @@ func c13RunImpl(c *c13Case) (obs *c13Obs, class string) {
 	if runErr == nil {
 		return nil, "no-error"
 	}
-	o := &c13Obs{Path: []string{}}
+	o := &c13Obs{Path: []string{}, TextPath: c13TextPath(runErr.Error())}
 	target := c13Leaf(c.Target, c.AsCustom)
 	if c.AsCustom && c.Target < 1000 {
 		var ce *c13Custom
@@ -360,24 +371,25 @@ func c13Call(ctx context.Context, c *c13Case, r compose.Runnable[string, string]
 		}
 		return schema.StreamReaderFromArray([]string{"x", "y"})
 	}
+	opts := c13CallOpts(c)
 	return vh.WithTimeout(limit, func() {
 		switch c.Paradigm {
 		case "stream":
 			var sr *schema.StreamReader[string]
-			sr, runErr = r.Stream(ctx, "x")
+			sr, runErr = r.Stream(ctx, "x", opts...)
 			if runErr == nil {
 				runErr = c13Drain(sr)
 			}
 		case "collect":
-			_, runErr = r.Collect(ctx, input())
+			_, runErr = r.Collect(ctx, input(), opts...)
 		case "transform":
 			var sr *schema.StreamReader[string]
-			sr, runErr = r.Transform(ctx, input())
+			sr, runErr = r.Transform(ctx, input(), opts...)
 			if runErr == nil {
 				runErr = c13Drain(sr)
 			}
 		default:
-			_, runErr = r.Invoke(ctx, "x")
+			_, runErr = r.Invoke(ctx, "x", opts...)
 		}
 	})
 }
@@ -645,13 +657,24 @@ func c13One(ctx *vh.Ctx, c *c13Case) error {
 		ctx.Res.Disagree(vh.Disagreement{Signature: c13Sig(c, "errors.Is"),
 			What: fmt.Sprintf("errors.Is/As(original) = %v on the implementation, %v in the model", impl.Is, model.Is), Case: c, Model: model, Impl: impl})
 	}
-	pathOK := vh.CanonEq(impl.Path, model.Path)
-	if !pathOK && c.CoFail > 0 && len(model.Path) > 0 && len(impl.Path) == len(model.Path) {
-		// any of the nodes that failed in that step may be the one reported (completion order decides)
-		for i := 0; i < c.CoFail && !pathOK; i++ {
-			alt := append(append([]string{}, model.Path[:len(model.Path)-1]...), fmt.Sprintf("sib%d", i))
-			pathOK = vh.CanonEq(impl.Path, alt)
+	pathMatches := func(got, want []string) bool {
+		ok := vh.CanonEq(got, want)
+		if !ok && c.CoFail > 0 && len(want) > 0 && len(got) == len(want) {
+			// any of the nodes that failed in that step may be the one reported (completion order decides)
+			for i := 0; i < c.CoFail && !ok; i++ {
+				alt := append(append([]string{}, want[:len(want)-1]...), fmt.Sprintf("sib%d", i))
+				ok = vh.CanonEq(got, alt)
+			}
 		}
+		return ok
+	}
+	pathOK := pathMatches(impl.Path, model.Path)
+	if model.TextPath == nil {
+		model.TextPath = []string{}
+	}
+	if !pathMatches(impl.TextPath, model.TextPath) || (pathOK && !vh.CanonEq(impl.TextPath, impl.Path)) {
+		ctx.Res.Disagree(vh.Disagreement{Signature: c13Sig(c, "textPath"),
+			What: fmt.Sprintf("the text of the returned error names the node path %v (the error's path field: %v), the model %v", impl.TextPath, impl.Path, model.TextPath), Case: c, Model: model, Impl: impl})
 	}
 	if c.CoFail > 0 {
 		ctx.Res.Dist(fmt.Sprintf("co-failing=%d", c.CoFail))
@@ -668,7 +691,7 @@ func c13One(ctx *vh.Ctx, c *c13Case) error {
 }
 
 func runC13(ctx *vh.Ctx) error {
-	ctx.Res.Rule = "random failure scenarios: nesting depth 0-4, failing lambda kind x calling paradigm x trigger mode per level x error shape (leaf / %w chains / panic / post-handler / step limit / cancellation); non-trivial = at least one nesting level; distinct by (kind, lambda kind, paradigm, depth, error shape, modes, siblings); plus the panic families statepanic (graphs/chains/workflows with state: failing inside the ProcessState handler while siblings of the step use the state; non-trivial = at least one sibling) and streampanic (channel-backed stream inputs, close styles, several failing lanes, run in a child process), distinct by all their case fields; ctxend (the context of the run ends between two steps of a graph at any nesting level: cancel / cancel(cause) / expired deadline or timeout / a context type of the caller with Err() = DeadlineExceeded, Canceled or its own value; already done at the start or ended by a node that returns normally; handed to the run directly or as a WithValue / WithCancel child; errors.Is compared against Canceled, DeadlineExceeded, the custom value, the cause, ErrExceedMaxSteps; non-trivial = not a plain top-level cancellation; distinct by how/when/wrap/paradigm/level/modes) and fwdtree (reader expressions: StreamReaderWithConvert with a convert function that panics or fails on chosen values, Copy, MergeStreamReaders over array- and channel-backed sources, drained in a child process; non-trivial = a panic is raised on a forwarding goroutine; distinct by the expression)"
+	ctx.Res.Rule = "random failure scenarios: nesting depth 0-4, failing lambda kind x calling paradigm x trigger mode per level x error shape (leaf / %w chains / panic / post-handler / step limit / cancellation); non-trivial = at least one nesting level; distinct by (kind, lambda kind, paradigm, depth, error shape, modes, siblings); plus the panic families statepanic (graphs/chains/workflows with state: failing inside the ProcessState handler while siblings of the step use the state; non-trivial = at least one sibling) and streampanic (channel-backed stream inputs, close styles, several failing lanes, run in a child process), distinct by all their case fields; ctxend (the context of the run ends between two steps of a graph at any nesting level: cancel / cancel(cause) / expired deadline or timeout / a context type of the caller with Err() = DeadlineExceeded, Canceled or its own value; already done at the start or ended by a node that returns normally; handed to the run directly or as a WithValue / WithCancel child; errors.Is compared against Canceled, DeadlineExceeded, the custom value, the cause, ErrExceedMaxSteps; non-trivial = not a plain top-level cancellation; distinct by how/when/wrap/paradigm/level/modes) and fwdtree (reader expressions: StreamReaderWithConvert with a convert function that panics or fails on chosen values, Copy, MergeStreamReaders over array- and channel-backed sources, drained in a child process; non-trivial = a panic is raised on a forwarding goroutine; distinct by the expression); obsnode (2-4 nested levels, each sub-graph embedded as a graph node, through a lambda that runs the compiled graph and returns / reads / %w-wraps its error or passes a logging OnError handler to it, or through a ToolsNode whose tool runs the graph; optionally a logging OnError handler on the caller's run; the node path is compared as the TEXT of the returned error names it, next to the path field and errors.Is; non-trivial = somebody read the error before the last level; distinct by via/observe/paradigm/lambda kind/error shape/modes); in every family the path named by the error text is compared too"
 	if ctx.Replay != nil {
 		var c c13Case
 		if err := json.Unmarshal(ctx.Replay, &c); err != nil {
@@ -701,6 +724,9 @@ func runC13(ctx *vh.Ctx) error {
 			_, err := c13FwdBatch(ctx, []*c13Case{&c})
 			return err
 		}
+		if c.Kind == "obsnode" {
+			return c13ObsOne(ctx, &c)
+		}
 		return c13One(ctx, &c)
 	}
 	n := ctx.N(3000, 20000)
@@ -714,6 +740,9 @@ func runC13(ctx *vh.Ctx) error {
 		return err
 	}
 	if err := c13RunCtxFwdFamilies(ctx); err != nil {
+		return err
+	}
+	if err := c13RunObserved(ctx); err != nil {
 		return err
 	}
 	for _, par := range []string{"invoke", "stream", "collect", "transform"} {
